@@ -60,7 +60,9 @@ def enumerate_cases(tier, scope):
         [['tick', 1], ['kill', 'kt']],
         [['tick', 2], ['pause', 'p2'], ['tick', 1], ['kill', 'k2']],
     ]
-    progs = [RICH, cat['waitwait'], cat['failing'], cat['selfkill'], cat['chain'], SPECD, CODEC]
+    # finishes, then its on_finished hook raises: the process ends EXCEPTED with an outcome future that was already resolved
+    hookfail = {'steps': [gen.S([['out', 'h', 1]], ['wait', 1, None, None]), gen.S([['out', 'g', 2]], ['value', 6])], 'raise_in_hook': ['on_finished', 'post']}
+    progs = [RICH, cat['waitwait'], cat['failing'], cat['selfkill'], cat['chain'], SPECD, CODEC, hookfail]
     for prog in progs:
         for sched in scheds:
             for loader in ('default', 'custom', 'custom-arg'):
